@@ -273,18 +273,11 @@ class Barrier(Payoff):
             self.process = self.__barrier_event_up
 
     def __barrier_event_down(self, _, path):
-        self.barrier_event = False
-        for value in path:
-            if value < self.barrier:
-                self.barrier_event = True
-                break
+        # elementwise, so that paths of shape (1, n) (Markov chain SDE) work as well as flat ones
+        self.barrier_event = bool(np.any(np.asarray(path) < self.barrier))
 
     def __barrier_event_up(self, _, path):
-        self.barrier_event = False
-        for value in path:
-            if value > self.barrier:
-                self.barrier_event = True
-                break
+        self.barrier_event = bool(np.any(np.asarray(path) > self.barrier))
 
     def evaluate(self, underlying: float) -> float:
         return self._evaluate_impl(underlying)
